@@ -368,6 +368,10 @@ func (v AudioSamplingRate) String() string {
 // Parse the FLV sampling rate to Hz.
 func (v AudioSamplingRate) ToHz() int {
 	flvSR := []int{5512, 11025, 22050, 44100}
+	if int(v) >= len(flvSR) {
+		// Not a FLV sampling rate code, for example the Opus rate in kHz.
+		return 0
+	}
 	return flvSR[v]
 }
 
